@@ -53,34 +53,8 @@ def roland_base(chk: Check):
     return case, rw.build_image(case, chk.seed), paths
 
 
-def run(chk: Check):
-    thorough = chk.tier == "thorough"
-    rng = random.Random(chk.seed)
-    chk.rule = ("design: termination (liveness) and a linear step bound for every loop over untrusted structure - the three allocation-table "
-                "walks, the partition scan, the file-table scan, the keygroup chain, cue line consumption, the trimming of an export name - over all small inputs. Fault "
-                "enumeration: TLC enumerates every single fault (site x value: every used SAT/FAT word and neighbours set to each special "
-                "value, each in-range link, itself, extremes; directory pointers, counts, sizes, type bytes, header counts) and simulated "
-                "pairs/triples on generated AKAI and Roland images, plus mutated cue sheets, cue sheets with one 60 kB line of each character class in each position, random cue-like text, random byte strings and random multi-byte "
-                "corruptions, and truncations of the base images at sector / cluster boundaries and inside; each runs ls at every level and export in a forked "
-                "child under rlimits; non-trivial = distinct fault set")
-    for kind in ("partitions", "table", "keygroups", "cue"):
-        chk.run_tlc("Scans", tlc.cfg_text(spec="Spec", constants=dict(TrimBacktracks=False, TableScanRealigns=True, Kind=kind, MaxSize=5 if thorough else 4, S=2, HeadLen=5),
-                                          invariants=["StepBound", "Aligned"], properties=["Terminates"]), label=f"design: {kind} scan terminates, linear steps")
-    # name trimming (D19): the repaired trim is linear and gives the same name as the regular expression it replaced;
-    # the regular expression run by a backtracking matcher must be refuted on the step bound
-    trim = dict(TableScanRealigns=True, Kind="trim", MaxSize=6 if thorough else 5, S=2, HeadLen=5)
-    chk.run_tlc("Scans", tlc.cfg_text(spec="Spec", constants=dict(trim, TrimBacktracks=False), invariants=["StepBound", "TrimResult"], properties=["Terminates"]),
-                label="design: trimming the ending of an export name is linear")
-    chk.run_tlc("Scans", tlc.cfg_text(spec="Spec", constants=dict(trim, TrimBacktracks=True), invariants=["TrimResult"], properties=["Terminates"]),
-                label="design: the backtracking matcher computes the same ending")
-    r = chk.run_tlc("Scans", tlc.cfg_text(spec="Spec", constants=dict(trim, TrimBacktracks=True), invariants=["StepBound"]), expect_ok=False,
-                    label="sensitivity: the backtracking matcher must be refuted on the step bound")
-    chk.extra["spec_mutants_killed"] = {"TrimBacktracks": not r.ok}
-    if r.ok:
-        raise tlc.TlcError("sensitivity self-test failed: Scans.tla accepts the backtracking trim")
-    for kind, n, alpha, lo, hi in [("path", 3, {0}, 0, 0), ("akai", 4, akai_alphabet(4), 0, 4), ("roland", 13, roland_alphabet(13, 5), 2, 5)]:
-        c = dict(N=n, Kind=kind, Alphabet=alpha, Lo=lo, Hi=hi, PathGuardIncrements=True, RolandWalkBounded=True)
-        chk.run_tlc("AllocWalk", tlc.cfg_text(spec="Spec", constants=c, properties=["Terminates"]), label=f"design: {kind} table walk terminates")
+def build_jobs(chk: Check, thorough: bool, rng) -> List[Dict[str, Any]]:
+    """every damaged / hostile input of this tier, deterministic in (seed, tier): [{label, faults, names, data, paths, suffix, extra}]"""
     jobs: List[Dict[str, Any]] = []
     for label, (case, image, paths), sites_fn in (("akai", akai_base(chk), faults.akai_sites), ("roland", roland_base(chk), faults.roland_sites)):
         sites = sites_fn(case)
@@ -189,6 +163,38 @@ def run(chk: Check):
             n = rng.randint(1, 8)
             b[o:o + n] = rng.randbytes(n)
         jobs.append({"label": "akai-random-bytes", "faults": [[i, 0]], "names": [], "data": bytes(b), "paths": paths, "suffix": ".img", "extra": None})
+    return jobs
+
+
+def run(chk: Check):
+    thorough = chk.tier == "thorough"
+    rng = random.Random(chk.seed)
+    chk.rule = ("design: termination (liveness) and a linear step bound for every loop over untrusted structure - the three allocation-table "
+                "walks, the partition scan, the file-table scan, the keygroup chain, cue line consumption, the trimming of an export name - over all small inputs. Fault "
+                "enumeration: TLC enumerates every single fault (site x value: every used SAT/FAT word and neighbours set to each special "
+                "value, each in-range link, itself, extremes; directory pointers, counts, sizes, type bytes, header counts) and simulated "
+                "pairs/triples on generated AKAI and Roland images, plus mutated cue sheets, cue sheets with one 60 kB line of each character class in each position, random cue-like text, random byte strings and random multi-byte "
+                "corruptions, and truncations of the base images at sector / cluster boundaries and inside; each runs ls at every level and export in a forked "
+                "child under rlimits; non-trivial = distinct fault set")
+    for kind in ("partitions", "table", "keygroups", "cue"):
+        chk.run_tlc("Scans", tlc.cfg_text(spec="Spec", constants=dict(TrimBacktracks=False, TableScanRealigns=True, Kind=kind, MaxSize=5 if thorough else 4, S=2, HeadLen=5),
+                                          invariants=["StepBound", "Aligned"], properties=["Terminates"]), label=f"design: {kind} scan terminates, linear steps")
+    # name trimming (D19): the repaired trim is linear and gives the same name as the regular expression it replaced;
+    # the regular expression run by a backtracking matcher must be refuted on the step bound
+    trim = dict(TableScanRealigns=True, Kind="trim", MaxSize=6 if thorough else 5, S=2, HeadLen=5)
+    chk.run_tlc("Scans", tlc.cfg_text(spec="Spec", constants=dict(trim, TrimBacktracks=False), invariants=["StepBound", "TrimResult"], properties=["Terminates"]),
+                label="design: trimming the ending of an export name is linear")
+    chk.run_tlc("Scans", tlc.cfg_text(spec="Spec", constants=dict(trim, TrimBacktracks=True), invariants=["TrimResult"], properties=["Terminates"]),
+                label="design: the backtracking matcher computes the same ending")
+    r = chk.run_tlc("Scans", tlc.cfg_text(spec="Spec", constants=dict(trim, TrimBacktracks=True), invariants=["StepBound"]), expect_ok=False,
+                    label="sensitivity: the backtracking matcher must be refuted on the step bound")
+    chk.extra["spec_mutants_killed"] = {"TrimBacktracks": not r.ok}
+    if r.ok:
+        raise tlc.TlcError("sensitivity self-test failed: Scans.tla accepts the backtracking trim")
+    for kind, n, alpha, lo, hi in [("path", 3, {0}, 0, 0), ("akai", 4, akai_alphabet(4), 0, 4), ("roland", 13, roland_alphabet(13, 5), 2, 5)]:
+        c = dict(N=n, Kind=kind, Alphabet=alpha, Lo=lo, Hi=hi, PathGuardIncrements=True, RolandWalkBounded=True)
+        chk.run_tlc("AllocWalk", tlc.cfg_text(spec="Spec", constants=c, properties=["Terminates"]), label=f"design: {kind} table walk terminates")
+    jobs = build_jobs(chk, thorough, rng)
     import gc
     gc.collect()
 
@@ -198,7 +204,7 @@ def run(chk: Check):
     results = faults.parallel(do, jobs, procs=14)
     for job, r in zip(jobs, results):
         chk.evaluated((job["label"], json.dumps(job["faults"])), nontrivial=True)
-        judge(chk, job["label"], {"label": job["label"], "faults": job["faults"], "names": job["names"]}, r,
+        judge(chk, job["label"], {"label": job["label"], "faults": job["faults"], "names": job["names"], "tier": chk.tier}, r,
               job.get("size") or len(job["data"]) + sum(len(b) for b in (job["extra"] or {}).values()))
     chk.extra["jobs"] = {k: sum(1 for j in jobs if j["label"] == k) for k in sorted({j["label"] for j in jobs})}
     chk.sample({"label": jobs[3]["label"], "fault": jobs[3]["names"]})
@@ -210,18 +216,13 @@ def run(chk: Check):
 
 def replay(chk: Check, path: str):
     rec = json.load(open(path))["case"]
-    label = rec["label"]
-    if label.startswith("akai") and label != "akai-random-bytes":
-        case, image, paths = akai_base(chk)
-        sites = faults.akai_sites(case)
-    elif label.startswith("roland"):
-        case, image, paths = roland_base(chk)
-        sites = faults.roland_sites(case)
-    else:
-        raise tlc.TlcError("replay is supported for structural faults (akai / roland); rerun the check for the others")
-    data = faults.apply(image, sites, rec["faults"])
-    if label.endswith("-mdf"):
-        data = cw.to_mode1_2352(data)
-    r = faults.probe(data, paths, ".mdf" if label.endswith("-mdf") else ".img")
-    chk.evaluated(("replay", json.dumps(rec["faults"])))
-    judge(chk, label, rec, r, len(data))
+    tier = rec.get("tier", chk.tier)
+    jobs = build_jobs(chk, tier == "thorough", random.Random(chk.seed))
+    key = (rec["label"], json.dumps(rec["faults"]))
+    job = next((j for j in jobs if (j["label"], json.dumps(j["faults"])) == key), None)
+    if job is None:
+        raise tlc.TlcError(f"the recorded input {key} is not among the inputs of tier {tier} with seed {chk.seed}")
+    data = job["data"]() if callable(job["data"]) else job["data"]
+    r = faults.probe(data, job["paths"], job["suffix"], job["extra"])
+    chk.evaluated(("replay", key[0], key[1]))
+    judge(chk, job["label"], dict(rec), r, job.get("size") or len(data) + sum(len(b) for b in (job["extra"] or {}).values()))
